@@ -300,7 +300,7 @@ func runC04(c *Ctx) {
 	if co := p.Fn("broker", "(*IPC).ClientOffers"); co != nil {
 		var X *ssa.Call
 		for _, ci := range callsIn(co) {
-			if f := staticCallee(ci); f != nil && f.Name() == "matchSnowflake" {
+			if f := staticCallee(ci); f != nil && f == p.Fn("broker", "(*IPC).matchSnowflake") {
 				X, _ = ci.(*ssa.Call)
 			}
 		}
@@ -465,7 +465,7 @@ func (c *Ctx) checkDeregistration(le *LockEngine) {
 	if co := p.Fn("broker", "(*IPC).ClientOffers"); co != nil {
 		var X *ssa.Call
 		for _, ci := range callsIn(co) {
-			if f := staticCallee(ci); f != nil && f.Name() == "matchSnowflake" {
+			if f := staticCallee(ci); f != nil && f == p.Fn("broker", "(*IPC).matchSnowflake") {
 				X, _ = ci.(*ssa.Call)
 			}
 		}
